@@ -30,7 +30,7 @@ REQUIRED_ANCHORS = ["containers:Container.__eq__", "containers:Container.__ne__"
                     "hex:hexdump", "hex:hexundump"]
 ANCHORS = REQUIRED_ANCHORS
 
-PUB = ["a", "b", "c", "x1", "data", "keys", "items", "update", "copy", "search", "pop", "clear", "values", "get", "search_all", "flags"]
+PUB = ["a", "b", "c", "x1", "data", "keys", "items", "update", "copy", "search", "pop", "clear", "values", "get", "search_all", "flags", "", " ", "__"]
 PRIV = ["_p", "_io", "_", "_flagsenum"]
 
 
